@@ -12,20 +12,20 @@ import MenelausVerif.Model.PageHinkley
 namespace MV.Driver
 open MV
 
-def parseOptFloat? (t : String) : Option (Option Float) :=
+private def parseOptFloat? (t : String) : Option (Option Float) :=
   if t = "_" then some Option.none else (parseFloat? t).map some
 
-def showOptFloat : Option Float → String
+private def showOptFloat : Option Float → String
   | some f => showFloat f
   | Option.none => "_"
 
-def cusumDir? : String → Option Cusum.Dir
+private def cusumDir? : String → Option Cusum.Dir
   | "B" => some .both | "P" => some .positive | "N" => some .negative | _ => Option.none
 
-def showOutcome : Cusum.Outcome → String
+private def showOutcome : Cusum.Outcome → String
   | .ok => "ok" | .valueError => "V" | .otherError => "O"
 
-def cusumStep (c : Cusum.Cfg Float) (s : Cusum.State Float) :
+private def cusumStep (c : Cusum.Cfg Float) (s : Cusum.State Float) :
     List String → Option (String × Cusum.State Float)
   | ["u", t] =>
     match parseFloat? t with
@@ -37,10 +37,10 @@ def cusumStep (c : Cusum.Cfg Float) (s : Cusum.State Float) :
     | Option.none => Option.none
   | _ => Option.none
 
-def phDir? : String → Option PH.Dir
+private def phDir? : String → Option PH.Dir
   | "P" => some .positive | "N" => some .negative | _ => Option.none
 
-def phStep (c : PH.Cfg Float) (s : PH.State Float) : List String → Option (String × PH.State Float)
+private def phStep (c : PH.Cfg Float) (s : PH.State Float) : List String → Option (String × PH.State Float)
   | ["u", t] =>
     match parseFloat? t with
     | some x =>
